@@ -639,6 +639,73 @@ func ruleC18Uninit(cx *Ctx) {
 			cx.R.Check(ok, rule, name, "uninitialised edge", cx.P.where(chk), "uninitialised: return immediately (estimate 0)")
 		}
 	}
+	// ensureCapacity path by path: the table is kept (nothing reset) exactly when it is already large enough, and a
+	// replaced table always leaves the sketch enabled
+	if ens := cx.P.Func("", "sketch", "ensureCapacity"); ens != nil {
+		flagF := cx.P.Field("", "sketch", "isInitialized")
+		tabF := cx.P.Field("", "sketch", "table")
+		paths, okP := enumPaths(ens, 64)
+		okKeep, okGrow, nKeep, nGrow := true, true, 0, 0
+		witness := ""
+		for _, p := range paths {
+			if _, isRet := p.Exit.(*ssa.Return); !isRet {
+				continue
+			}
+			large := 0 // +1: len(table) >= maximum known true, -1: known false
+			flagOn := false
+			for _, c := range p.Conds {
+				t := newTermBuilder().of(c.If.Cond)
+				if len(t.Args) == 2 {
+					l, r, op := t.Args[0].String(), t.Args[1].String(), t.Op
+					lenT := mk("builtin:len", mk("field:table", tVar("param0"))).String()
+					if r == lenT {
+						l, r = r, l
+						op = map[string]string{"<": ">", ">": "<", "<=": ">=", ">=": "<="}[op]
+					}
+					if l == lenT && r == "param1" {
+						switch {
+						case (op == ">=" && c.Truth) || (op == "<" && !c.Truth):
+							large = 1
+						case (op == ">=" && !c.Truth) || (op == "<" && c.Truth):
+							large = -1
+						}
+					}
+				}
+				if cond, neg := stripNot(c.If.Cond); atomicOp(asInstr(cond), flagF, "Load") && c.Truth != neg {
+					flagOn = true
+				}
+			}
+			stored := false
+			for _, in := range p.instrs() {
+				if st, isSt := in.(*ssa.Store); isSt && sameField(fieldOf(st.Addr), tabF) {
+					stored = true
+				}
+				if atomicOp(in, flagF, "Store") {
+					if a := callArgs(in); len(a) == 1 {
+						if b, isB := constBool(a[0]); isB && b {
+							flagOn = true
+						}
+					}
+				}
+			}
+			switch {
+			case large == 1:
+				nKeep++
+				if stored {
+					okKeep, witness = false, cx.P.where(p.Exit)
+				}
+			case large == -1:
+				nGrow++
+				if !stored || !flagOn {
+					okGrow, witness = false, cx.P.where(p.Exit)
+				}
+			default:
+				okKeep, okGrow, witness = false, false, cx.P.where(p.Exit)
+			}
+		}
+		cx.R.Check(okP && okKeep && nKeep > 0, rule, funcName(ens), "a large enough table is kept", cx.P.Pos(ens.Pos()), "ensureCapacity replaces (and thereby zeroes) the counters only when len(table) < maximumSize: a call that finds the table large enough leaves every estimate alone "+witness)
+		cx.R.Check(okP && okGrow && nGrow > 0, rule, funcName(ens), "growth enables the sketch", cx.P.Pos(ens.Pos()), "whenever len(table) < maximumSize the table is replaced and the sketch is marked initialised "+witness)
+	}
 	// isNotInitialized really reads the flag set by ensureCapacity
 	flag := cx.P.Field("", "sketch", "isInitialized")
 	ok := false
